@@ -906,7 +906,7 @@ func handleMessage(peer *Peer, m protocol.Message) error {
 				m.Index, m.Begin, m.Data, peer.Counter)
 			protocol.PutBuffer(m.Data)
 			m.Data = nil
-			if n == uint32(length) {
+			if length > 0 && n == uint32(length) {
 				peer.download.Accumulate(length)
 				peer.avgDownload.Accumulate(length)
 				writeEvent(peer, TorData{peer,
